@@ -542,6 +542,15 @@ class SysRun(object):
         is_net = p["server"]["kind"] != "dispatcher"
         s.spawn(self.opener, "opener", "harness")
         serve_thread = None
+        if is_net and life == "serve-twice":
+            # a first serving period without clients, then the real one
+            first = s.spawn(lambda: srv.serve_forever(0.5), "serve_forever_1", "server")
+            s.sleep(1.0)
+            self.lifecycle_op("shutdown", srv.shutdown)
+            self.wait_threads([first])
+            # (shutdown() is only ever called while serve_forever() runs: calling it otherwise is a documented misuse of
+            # socketserver, which leaves the shutdown request pending for the next serve_forever())
+            life = "serve"
         if is_net and life in ("serve", "shutdown-inflight"):
             serve_thread = s.spawn(lambda: srv.serve_forever(0.5), "serve_forever", "server")
         elif is_net and life == "handle-loop":
